@@ -59,6 +59,28 @@ class Scope(BaseScope):
         return self.top.source.filename
 
 
+NO_LOOPS = frozenset()  # type: frozenset[LoopFlow]
+
+
+def region_table(func):
+    # type: (t.Callable[[t.Any], R]) -> R
+    """Memo of a table of a region. A table computed while loop back edges
+    are being resolved lacks what comes round those edges: it is kept for
+    that resolution only."""
+    name = '_memo_' + func.__name__
+
+    def getter(self):  # type: ignore[no-untyped-def]
+        active = frozenset(self.scope.top._active_loops)
+        memo = self.__dict__.setdefault(name, {})
+        for key in (NO_LOOPS, active):
+            if key in memo:
+                return memo[key]
+        value = memo[active] = func(self)
+        return value
+
+    return property(getter)  # type: ignore[return-value]
+
+
 class Flow(object):
     def __init__(self, hint, scope, parents=None):
         # type: (str, Scope, t.MutableSequence[Flow | LoopFlow] | None) -> None
@@ -82,12 +104,12 @@ class Flow(object):
             self.scope.locals.add(name.name)
             insert_loc(self._names, name)
 
-    @cached_property
+    @region_table
     def names(self):
         # type: () -> t.Mapping[str, Name | MultiName]
         return MergedDict({n.name: n for n in self._names}, self.parent_names)
 
-    @cached_property
+    @region_table
     def parent_names(self):
         # type: () -> t.Mapping[str, Name | MultiName ]
         if len(self.parents) == 1:
@@ -151,6 +173,7 @@ class LoopFlow(object):
         # type: (Flow) -> None
         self.parent = parent
         self._resolving = False
+        self._memo = {}  # type: dict[frozenset[LoopFlow], t.Mapping[str, Name | MultiName]]
 
     @property
     def names(self):
@@ -158,17 +181,22 @@ class LoopFlow(object):
         if self._resolving:
             return UNRESOLVED
 
-        try:
-            return self._names
-        except AttributeError:
-            pass
+        loops = self.parent.scope.top._active_loops
+        active = frozenset(loops)
+        memo = self._memo
+        for key in (NO_LOOPS, active):
+            if key in memo:
+                return memo[key]
 
         self._resolving = True
+        loops.append(self)
         try:
-            result = self._names = self.parent.names
+            result = self.parent.names
         finally:
+            loops.pop()
             self._resolving = False
 
+        memo[active] = result
         return result
 
 
@@ -192,6 +220,7 @@ class SourceScope(Scope):
         self._star_imports = []
         self._attr_assigns = []
         self._global_names = {}
+        self._active_loops = []  # type: list[LoopFlow]
 
     def __repr__(self):
         # type: () -> str
